@@ -672,5 +672,16 @@ func (e *codecEnv) runDirectedPrograms(rng *rand.Rand, emit bool) {
 		e.runNestingWalk(rng, k.kind, k.max, emit)
 		e.st.Programs++
 	}
+	// field names as compact-map keys (codecnamed.go); own PRNG: the programs above keep their inputs
+	rng2 := rand.New(rand.NewSource(e.cfg.Seed*7919 + 12))
+	e.prog = 450
+	e.runCompactTypeIDProgram(rng2, emit)
+	e.st.Programs++
+	e.prog = 451
+	e.runCompactSeparatorProbe(rng2)
+	e.st.Programs++
+	e.prog = 460
+	e.runUintSizeTable(rng2, emit)
+	e.st.Programs++
 	e.runStorableSlabPrograms(rng, emit) // codecstorslab.go: size limit and inlined-container refusal of the StorableSlab
 }
